@@ -38,6 +38,34 @@ func (d docGen) orderObject(depth int) map[string]interface{} {
 // document that "was built" by sharing values instead of copying them).
 var seenContainers []interface{}
 
+// deepChain builds a narrow but deep document: every level is an object (or array) with 1-3
+// members, one of which continues downwards.
+func (d docGen) deepChain(depth int) interface{} {
+	if depth <= 0 {
+		return d.leaf()
+	}
+	if rn(3) == 0 {
+		a := make([]interface{}, 1+rn(3))
+		for i := range a {
+			a[i] = d.leaf()
+		}
+		if rn(4) == 0 && len(a) > 1 {
+			a[rn(len(a))] = map[string]interface{}{"a": d.leaf()}
+		}
+		a[rn(len(a))] = d.deepChain(depth - 1)
+		return a
+	}
+	m := map[string]interface{}{}
+	for i := rn(3); i > 0; i-- {
+		m[orderKeys[rn(len(orderKeys))]] = d.leaf()
+	}
+	if rn(3) == 0 {
+		m[plainKeys[rn(3)]] = map[string]interface{}{"b": d.leaf(), "a": d.leaf()}
+	}
+	m[plainKeys[rn(3)]] = d.deepChain(depth - 1)
+	return m
+}
+
 func (d docGen) orderValue(depth int) interface{} {
 	v := d.orderValue1(depth)
 	switch v.(type) {
@@ -244,6 +272,9 @@ var orderCfg = CfgSpec{Present: true, Funcs: orderFuncs}
 
 func orderPath(doc interface{}, trap bool) *PathSpec {
 	if chance(65) {
+		if chance(75) {
+			return genModelPathFor(doc, trap)
+		}
 		return genModelPath(trap)
 	}
 	// any path, but make sure an object traversal is in it
@@ -295,6 +326,9 @@ func runC07() *RunResult {
 		seenContainers = seenContainers[:0]
 		if chance(70) {
 			k.doc = dg.orderObject(1 + rn(3))
+			if rn(10) == 9 {
+				k.doc = dg.deepChain(6 + rn(5)) // nesting of 6 and more levels, narrow
+			}
 		} else {
 			k.doc = dg.doc(true)
 		}
@@ -443,19 +477,24 @@ func runC07() *RunResult {
 	return res
 }
 
+// sameMultiset reports whether a and b hold the same DISTINCT values (multiplicities may
+// differ).  When the library returns the specified values but in another sequence - another
+// order, or a node visited twice - that is an order defect (C07); when it returns other
+// values, or none, that is a selection defect (C01) and not judged here.
 func sameMultiset(a, b []interface{}) bool {
-	if len(a) != len(b) {
+	x := map[string]bool{}
+	y := map[string]bool{}
+	for i := range a {
+		x[canon(a[i])] = true
+	}
+	for i := range b {
+		y[canon(b[i])] = true
+	}
+	if len(x) != len(y) {
 		return false
 	}
-	x := make([]string, len(a))
-	y := make([]string, len(b))
-	for i := range a {
-		x[i], y[i] = canon(a[i]), canon(b[i])
-	}
-	sort.Strings(x)
-	sort.Strings(y)
-	for i := range x {
-		if x[i] != y[i] {
+	for k := range x {
+		if !y[k] {
 			return false
 		}
 	}
